@@ -41,6 +41,56 @@ CHECKS = {
              "(checked at run time by validate_positions); zero-length segments "
              "(the specification is ambiguous; cells recorded, not compared). "
              + TRUSTED),
+    "C12": dict(
+        technique="abstract interpretation of the syntax tree over finite "
+                  "domains: code tables, symbolic field maps, and exhaustive "
+                  "comparison of the link relations with a field-level "
+                  "reference (static analysis)",
+        engine="TABLE",
+        design_ref="DESIGN.md section 4, C12",
+        text="Partial. Decides, exhaustively on finite abstract domains (about "
+             "28000 cells): the CIGAR complement code map equals the reference "
+             "map, is an involution on M,I,D,P,=,X,H, exchanges the "
+             "reference/query code sets of length_on_reference/length_on_query, "
+             "reverses the order, keeps lengths, builds new Operation objects "
+             "and stores nothing into the receiver; Link.complement and "
+             "make_complement realise the reference field map for all "
+             "orientation pairs, self-links and placeholder overlaps; "
+             "is_same/is_complement/is_eql and is_compatible(_direct/"
+             "_complement) equal a reference relation defined on fields (the "
+             "code defines them through segment ends) for all 4096 link pairs, "
+             "and store nothing; the duplicate-link path tolerates exactly the "
+             "complement and searches with the complement allowed; a path "
+             "records '-' exactly for a complement match.",
+        note="Undecided: the laws on concrete multi-operation CIGAR values "
+             "beyond the per-code table, arrival-order effects, the "
+             "orientation flip on placeholder replacement "
+             "(UpdateReferences). Overlap values are opaque in the relation "
+             "tables. " + TRUSTED),
+    "C13": dict(
+        technique="decision-table extraction by abstract interpretation over "
+                  "record type x version x VN x level, sibling-table agreement "
+                  "and mirror comparison of the two admission functions "
+                  "(static analysis)",
+        engine="TABLE",
+        design_ref="DESIGN.md section 4, C13",
+        text="Partial. Decides on the complete finite domain (record types "
+             "H,S,#,L,C,P,E,F,G,O,U,custom; Gfa version unknown/gfa1/gfa2; VN "
+             "absent/1.0/2.0/3.0; vlevel 0/1; string or Line instance): the "
+             "seven tables that encode record type x version agree with the "
+             "specification and with each other; every branch of the version "
+             "decision assigns the right version before replaying the queue, "
+             "queues exactly the version-ambiguous records and only sets the "
+             "guess for L/C/P; __add_line_GFA1/GFA2 refuse, with VersionError "
+             "and before any merge/connect, exactly the mirrored set of "
+             "inputs; the queue is appended to only in the unknown-version "
+             "adder, replayed once in order after the version is fixed, then "
+             "cleared; Gfa() and read_file replay after the last line; "
+             "Gfa() refuses unknown version/dialect arguments.",
+        note="Undecided: that the inferred version is the same for every "
+             "order of a concrete document (the tables make each single "
+             "decision right; their composition over arrival orders is not "
+             "enumerated), the dialect (rGFA) cross-checks. " + TRUSTED),
 }
 
 NOT_APPLICABLE = {
